@@ -3,6 +3,7 @@ CONSTANTS
   CacheMerged = TRUE
   OwnUnion = TRUE
   MaxRewrites = 1
-INVARIANT V
+\* property invariants as CONSTRAINTs before Report (docs/FAMILY_GUIDE.md): a violating recorded state cuts only its own segment
+CONSTRAINT V
 CONSTRAINT Report
 CHECK_DEADLOCK FALSE
